@@ -287,7 +287,7 @@ def run_cmd(cmd, cwd, timeout, mem_gb=None, env=None, live_log=None):
 
 
 CHECK_RE = re.compile(
-    r"^Check (\d+): (\S+)\n\t - Status: (\w+)\n\t - Description: \"(.*?)\"\n\t - Location: (.*?)$",
+    r"^Check (\d+): ([^\n]+)\n\t - Status: (\w+)\n\t - Description: \"(.*?)\"\n\t - Location: (.*?)$",
     re.M | re.S)
 
 INFRA_DESCR = ("unwinding assertion", "VERIF-MODEL-BOUND", "VERIF-LOST-ANCHOR", "is not currently supported by Kani",
